@@ -5,6 +5,7 @@ from .. import env  # noqa: F401
 from ..core import Phase, Result
 from .. import grammar as G
 from .. import spans
+from ..represent import Rep, tapes
 from ..util import attempt, same_array, same_value
 
 import fsic
@@ -97,6 +98,7 @@ def check_table(res, df, obj, labels, flags, detail, where):
 
 def check_model(case):
     res = Result(classes=['model', 'span:' + case['span']['k']])
+    rep = Rep(case.get('rep'))
     made = attempt(build_model, case)
     if not made.ok:
         res.tag('skipped:model-not-built')
@@ -112,7 +114,7 @@ def check_model(case):
                 flags = {'status': status, 'iterations': iterations, 'include_internal': internal}
                 detail = f'{text!r} span={labels!r} extras={case.get("extras")} solved={case.get("solved")} flags={flags}'
                 for where, fn in (('to_dataframe', m.to_dataframe), ('model_to_dataframe', lambda **kw: tools.model_to_dataframe(m, **kw))):
-                    out = attempt(fn, **flags)
+                    out = attempt(fn, **{k_: rep.bool(v_) for k_, v_ in flags.items()})       # np.bool_ / 0-1 flags mean the same
                     if not out.ok:
                         res.fail(f'{where}/raised-{out.exc_name}', f'{detail}: {out!r}')
                         return res
@@ -194,6 +196,7 @@ def strat_container():
 
 def check_linker(case):
     res = Result(nontrivial=True, classes=['linker', f'submodels={len(case["subs"])}'])
+    rep = Rep(case.get('rep'))
     desc = case['span']
     labels = spans.labels(desc)
     subs = {}
@@ -226,7 +229,7 @@ def check_linker(case):
                 flags = {'status': status, 'iterations': iterations, 'include_internal': internal}
                 detail = f'linker name={case.get("name", "_")!r} subs={[s["id"] for s in case["subs"]]} span={labels!r} flags={flags}'
                 for where, fn in (('to_dataframes', linker.to_dataframes), ('linker_to_dataframes', lambda **kw: tools.linker_to_dataframes(linker, **kw))):
-                    out = attempt(fn, **flags)
+                    out = attempt(fn, **{k_: rep.bool(v_) for k_, v_ in flags.items()})       # np.bool_ / 0-1 flags mean the same
                     if not out.ok:
                         res.fail(f'{where}/raised-{out.exc_name}', f'{detail}: {out!r}')
                         return res
@@ -278,6 +281,7 @@ def strat_model():
         'span': st.sampled_from(descs),
         'extras': st.lists(st.integers(0, len(EXTRAS) - 1), max_size=6),
         'solved': st.integers(0, 2),
+        'rep': tapes(3),
     })
 
 
@@ -293,7 +297,7 @@ def strat_linker():
         return {'span': draw(st.sampled_from(descs)),
                 'subs': [{'id': i, 'prog': draw(prog), 'extras': draw(st.lists(st.integers(0, len(EXTRAS) - 1), max_size=4))} for i in ids],
                 'name': draw(st.sampled_from(['_', 'core', 0])), 'extras': draw(st.lists(st.integers(0, len(EXTRAS) - 1), max_size=4)),
-                'solved': draw(st.booleans())}
+                'solved': draw(st.booleans()), 'rep': draw(tapes(3))}
     return cases()
 
 
